@@ -50,6 +50,11 @@ def check(repo, col, tier):
     cl = _idx.compute_slots(repo, col, "R-C19-simulates", emit=())
     for nm in ("_step_synapse_state", "_synapse_currents"):
         c09._roles(repo, col, cl, nm, "R-C19-simulates", "R-C19-simulates")
+    # registries of the base module (channels, groups, ...) are extended on the base's own current registry: an edit made through a
+    # second view must see what the first view added (shared with C10/C11/C14)
+    from . import c11
+    col.rule("R-C19-basestate", "updates of the base module's registries are decided on the base's current registry, not a view's snapshot", 3)
+    c11._basestate(repo, col, "R-C19-basestate")
 
 
 def shared_resources(repo):
